@@ -134,6 +134,8 @@ func runCensus(seed uint64, cas int, tier string) *CensusRes {
 				alias[8] ^= 0x40
 				do(&Op{K: OpRename, H: D.FH, Name: n, H2: alias, Name2: "q"})
 				do(&Op{K: OpRename, H: alias, Name: n, H2: D.FH, Name2: "q"})
+				do(&Op{K: OpRename, H: D.FH, Name: n, H2: alias, Name2: names[0]}) // onto an existing name
+				do(&Op{K: OpRename, H: alias, Name: n, H2: D.FH, Name2: names[len(names)-1]})
 				if C.Kind == KDir {
 					continue // directories stay where they are (open known finding)
 				}
